@@ -69,6 +69,10 @@ ASSUMPTIONS = [
     "`every divisor of the ORIGINAL expression is non-zero`; the interpreted function F is its python definition (2v+1), instantiated at every application",
     "S7 (this module, symbolic runs only): the name `math` in unified_planning.model.walkers.type_checker is bound to a proxy whose isnan() answers False "
     "for int/Fraction arguments without inspecting them (an int is never NaN); everything else is delegated to the real math module",
+    "S8 (this module, symbolic runs only): the name `float` in unified_planning.model.walkers.type_checker and unified_planning.model.types is bound to a constructor "
+    "that returns an exact +-infinity object for float('inf'): comparisons of a (symbolic) int bound with +-inf are answered as python answers them (never equal, "
+    "strictly between) without converting the int to a float, which CrossHair would model in the floating-point theory (measured: 15 s timeouts); "
+    "inf +- finite = inf; inf * x and inf / x are not modelled (harness error), the symbolic shards keep the operands of * and / bounded",
     "layer 2 encodes, for the operations that walk_div performs on its operands: python int arithmetic as z3 Int terms (//, % with floor semantics); "
     "int / int as the correctly rounded binary64 quotient -- for an exact quotient q: to_fp(RNE, q), which is what CPython's long_true_divide returns; "
     "for an inexact quotient fp.div(RNE, to_fp(l), to_fp(r)) under the additional path constraint |l|, |r| <= 2**53 (where that IS the correctly rounded quotient); "
@@ -229,14 +233,25 @@ def _prods(sk, acc=None):
     return acc
 
 
-def _has_exists_eq(sk):
-    """exists whose body is (a conjunction containing) an equality between object terms: the shape walk_exists rewrites"""
+def _conjuncts(sk):
+    if sk[0] in ("and", "and3"):
+        return [c for s in sk[1:] for c in _conjuncts(s)]
+    return [sk]
+
+
+def exists_eq_tag(sk):
+    """'' | ':exists-eq' | ':exists-eq-nested': the expression has an exists whose body is a conjunction with an equality between
+    object terms (the shape Simplifier.walk_exists rewrites); nested: that body contains a further quantifier"""
+    best = ""
     if sk[0] in ("exists", "exists2", "existsS"):
-        body = sk[1]
-        conj = body[1:] if body[0] in ("and", "and3") else []
-        if any(c[0] == "oeq" for c in conj):
-            return True
-    return any(_has_exists_eq(s) for s in sk[1:])
+        conj = _conjuncts(sk[1])
+        if len(conj) > 1 and any(c[0] == "oeq" for c in conj):
+            best = ":exists-eq-nested" if (_prods(sk[1]) & set(QUANT)) else ":exists-eq"
+    for s in sk[1:]:
+        t = exists_eq_tag(s)
+        if len(t) > len(best):
+            best = t
+    return best
 
 
 # =============================================================================================
@@ -493,7 +508,7 @@ class _MathProxy:
         self._real = real
 
     def isnan(self, x):
-        if isinstance(x, (int, Fraction)):
+        if isinstance(x, (int, Fraction, _Inf)):
             return False
         return self._real.isnan(x)
 
@@ -501,13 +516,92 @@ class _MathProxy:
         return getattr(self._real, name)
 
 
-def _install_s7():
+class _Inf:
+    """S8: exact +-infinity for the type checker's bound arithmetic (see ASSUMPTIONS).  python compares int and float exactly:
+    no int equals +-inf and every int lies strictly between them; this object answers those comparisons without converting
+    the (symbolic) int to a float."""
+
+    __slots__ = ("neg",)
+
+    def __init__(self, neg=False):
+        self.neg = neg
+
+    def _same(self, o):
+        if isinstance(o, _Inf):
+            return o.neg == self.neg
+        if type(o) is float:
+            return o == (float("-inf") if self.neg else float("inf"))
+        return False
+
+    def __neg__(self):
+        return _Inf(not self.neg)
+
+    def __eq__(self, o):
+        return self._same(o)
+
+    def __ne__(self, o):
+        return not self._same(o)
+
+    def __hash__(self):
+        return hash(float("-inf") if self.neg else float("inf"))
+
+    def __lt__(self, o):
+        return self.neg and not self._same(o)
+
+    def __le__(self, o):
+        return self.neg or self._same(o)
+
+    def __gt__(self, o):
+        return (not self.neg) and not self._same(o)
+
+    def __ge__(self, o):
+        return (not self.neg) or self._same(o)
+
+    def _plus(self, o):
+        if isinstance(o, _Inf) and o.neg != self.neg:
+            from vf.ctx import HarnessError
+
+            raise HarnessError("S8: inf - inf is not modelled")
+        return self
+
+    __add__ = __radd__ = _plus
+
+    def __sub__(self, o):
+        return self._plus(-o if isinstance(o, _Inf) else 0)
+
+    def __rsub__(self, o):
+        return (-self)._plus(o)
+
+    def _unmodelled(self, *a):
+        from vf.ctx import HarnessError
+
+        raise HarnessError("S8: multiplication/division of an infinite bound is not modelled (keep operands of * and / bounded in symbolic shards)")
+
+    __mul__ = __rmul__ = __truediv__ = __rtruediv__ = _unmodelled
+
+    def __repr__(self):
+        return "-inf" if self.neg else "inf"
+
+
+def _float_proxy(x=0.0):
+    if isinstance(x, str) and x.strip().lower() in ("inf", "+inf", "infinity", "+infinity"):
+        return _Inf(False)
+    if isinstance(x, str) and x.strip().lower() in ("-inf", "-infinity"):
+        return _Inf(True)
+    return float(x)
+
+
+def _install_shims():
+    """S7 + S8, symbolic runs only (never on replay)"""
     import math
 
+    import unified_planning.model.types as ty
     import unified_planning.model.walkers.type_checker as tc
 
     if not isinstance(tc.math, _MathProxy):
         tc.math = _MathProxy(math)
+        tc.float = _float_proxy
+        ty.float = _float_proxy
 
 
 # =============================================================================================
@@ -517,7 +611,7 @@ def h_simplify(ctx, pool, root, max_nodes, max_depth, forced=None, problem=False
     from vf.ctx import Violation
 
     if ctx.mode == "sym":
-        _install_s7()
+        _install_shims()
     st = {"bound": 0, "symbolic": symbolic}
     sk, size = _gen(ctx, pool, root, max_nodes, max_depth, st, "r", forced or {}, {"mul": None, "div": False, "arith": False})
     text = _show(sk)
@@ -539,7 +633,7 @@ def h_simplify(ctx, pool, root, max_nodes, max_depth, forced=None, problem=False
         # not a well-typed expression (e.g. a constant-zero divisor is rejected by the type checker: C15's subject)
         ctx.assume(False)
     ctx.note("expression", text)
-    tag = ":exists-eq" if _has_exists_eq(sk) else ""
+    tag = exists_eq_tag(sk)
 
     simp = Simplifier(env, W.problem) if problem else Simplifier(env)
     try:
